@@ -32,6 +32,9 @@ THEOREMS = [
     "HedVerif.C10.offset_inner_group_kind",
     "HedVerif.C10.unknown_def_kind",
     "HedVerif.C10.not_temporal_no_issue",
+    "HedVerif.C10.warning_rows_participate",
+    "HedVerif.C10.no_error_all_participate",
+    "HedVerif.C10.error_rows_skipped",
 ]
 BUDGET = {"quick": 900, "thorough": 3600}
 
@@ -65,14 +68,40 @@ def install_kind_recorder():
     ErrorHandler._verif_wrapped = True
 
 
-def render_marker(kind, name, uid, delay=None):
+def render_marker(kind, name, uid, delay=None, unit=True, ext_inner=False):
     parts = []
     if delay is not None:
-        parts.append(f"Delay/{delay / 8} s")
+        parts.append(f"Delay/{delay / 8}" + (" s" if unit else ""))     # no unit: UNITS_MISSING (warning)
     parts += [f"Def/{name}", KIND_TAG[kind]]
     if kind != "offset":
-        parts.append(f"(Label/u{uid})")   # distinct inner content: no TAG_EXPRESSION_REPEATED between markers
+        # distinct inner content: no TAG_EXPRESSION_REPEATED between markers; an extended tag draws TAG_EXTENDED
+        parts.append(f"(Red/Crimsonish{uid})" if ext_inner else f"(Label/u{uid})")
     return "(" + ", ".join(parts) + ")"
+
+
+# decorations of a file row: what they add to the cell and the severity of the cell issue they draw in
+# the row-by-row checks (`run_basic_checks`); known by construction, not taken from the implementation
+DECO_SEV = {"ext_top": "warning", "ext_inner": "warning", "style": "warning", "delay_nounit": "warning",
+            "bad_tag": "error", "bad_def": "error"}
+WARN_DECOS = ["ext_top", "ext_inner", "style", "delay_nounit"]
+ERR_DECOS = ["bad_tag", "bad_def"]
+
+
+def row_sevs(r):
+    """severities of the cell issues the row's decorations draw (a decoration that finds nothing to decorate
+    draws nothing)"""
+    out = []
+    for d in r.get("deco", []):
+        if d == "ext_inner" and not any(k != "offset" for k, _ in r["markers"] + [m for _, ms in r["delayed"] for m in ms]):
+            continue
+        if d == "delay_nounit" and not r["delayed"]:
+            continue
+        out.append(DECO_SEV[d])
+    return out
+
+
+def row_has_error(r):
+    return "error" in row_sevs(r)
 
 
 def ref_run(history):
@@ -135,10 +164,24 @@ def order_sensitive(rows):
     return False
 
 
+def eff_times(r):
+    return {r["time"]} | {r["time"] + d for d, _ in r["delayed"]}
+
+
+def error_row_shares_time(rows):
+    """A row with an error-severity cell issue shares an effective time with another row: then the merged time
+    point is kept or skipped as a whole according to which row comes first (C07's merged-row finding); the
+    generator keeps error rows on times of their own."""
+    for i, r in enumerate(rows):
+        if row_has_error(r) and any(eff_times(r) & eff_times(q) for j, q in enumerate(rows) if j != i):
+            return True
+    return False
+
+
 def gen_rows(rng, nrows):
     while True:
         rows = _gen_rows(rng, nrows)
-        if not order_sensitive(rows):
+        if not order_sensitive(rows) and not error_row_shares_time(rows):
             return rows
 
 
@@ -150,7 +193,13 @@ def _gen_rows(rng, nrows):
         ms = [[rng.choice(KINDS), rng.choice(NAMES)] for _ in range(rng.choice([0, 1, 1, 1, 2, 2, 3]))]
         dl = [[rng.choice([4, 8, 12, 16, 20]), [[rng.choice(KINDS), rng.choice(NAMES)]]]
               for _ in range(rng.choice([0, 0, 0, 1, 1, 2]))]
-        rows.append({"time": t, "markers": ms, "delayed": dl})
+        deco = []
+        x = rng.random()
+        if x < 0.35:
+            deco = rng.sample(WARN_DECOS, rng.choice([1, 1, 2]))
+        elif x < 0.47:
+            deco = [rng.choice(ERR_DECOS)] + ([rng.choice(WARN_DECOS)] if rng.random() < 0.4 else [])
+        rows.append({"time": t, "markers": ms, "delayed": dl, "deco": deco})
     return rows
 
 
@@ -159,26 +208,45 @@ def rows_to_frame(rows):
     uid = 0
     onsets, heds = [], []
     for r in rows:
+        deco = r.get("deco", [])
         cell = []
+        ext_inner = "ext_inner" in deco          # the first Onset/Inset group of the row gets an extended tag inside
+        nounit = "delay_nounit" in deco          # the first Delay of the row is written without units
         for kind, name in r["markers"]:
             uid += 1
-            cell.append(render_marker(kind, name, uid))
+            cell.append(render_marker(kind, name, uid, ext_inner=ext_inner and kind != "offset"))
+            ext_inner = ext_inner and kind == "offset"
         for d, ms in r["delayed"]:
             for kind, name in ms:
                 uid += 1
-                cell.append(render_marker(kind, name, uid, delay=d))
+                cell.append(render_marker(kind, name, uid, delay=d, unit=not nounit,
+                                          ext_inner=ext_inner and kind != "offset"))
+                ext_inner = ext_inner and kind == "offset"
+                nounit = False
+        uid += 1
+        if "ext_top" in deco:
+            cell.append(f"Red/Topcrimson{uid}")   # TAG_EXTENDED (warning)
+        if "style" in deco:
+            cell.append("red")                    # STYLE_WARNING
+        if "bad_tag" in deco:
+            cell.append(f"Zorkk{uid}")            # TAG_INVALID (error)
+        if "bad_def" in deco:
+            cell.append("Def/Nope")               # DEF_INVALID (error)
         onsets.append(str(r["time"] / 8))
         heds.append(", ".join(cell) if cell else "n/a")
     return pd.DataFrame({"onset": onsets, "duration": ["n/a"] * len(rows), "HED": heds})
 
 
-def ref_file(rows):
-    """reference: effective-time grouping (stable), then the set machine; label = first row of the group"""
-    flat = [(r["time"], k, list(map(tuple, r["markers"])), k) for k, r in enumerate(rows)]
+def ref_file(rows, drop=row_has_error):
+    """reference, from the property statement: the event history is made of all rows without an error-severity
+    cell issue (a warning does not remove a row; a row with an error is left out together with its Delay groups);
+    effective-time grouping (stable), then the set machine; label = first row of the group"""
+    live = [k for k, r in enumerate(rows) if not drop(r)]
+    flat = [(rows[k]["time"], k, list(map(tuple, rows[k]["markers"])), k) for k in live]
     extra = []
-    for k, r in enumerate(rows):
-        for d, ms in r["delayed"]:
-            extra.append((r["time"] + d, len(rows) + len(extra), list(map(tuple, ms)), k))
+    for k in live:
+        for d, ms in rows[k]["delayed"]:
+            extra.append((rows[k]["time"] + d, len(rows) + len(extra), list(map(tuple, ms)), k))
     allr = sorted(flat + extra, key=lambda x: (x[0], x[1]))
     tps = []
     for tm, _, ms, orig in allr:
@@ -190,15 +258,30 @@ def ref_file(rows):
     return sorted([tps[t][2], k] for t, _, k in errs)
 
 
-def impl_file(rows, schema, dd):
+def impl_file(rows, schema, dd, warnings=True):
     from hed import TabularInput
+    from hed.errors.error_reporter import ErrorHandler
     df = rows_to_frame(rows)
     before = df.copy()
-    issues = TabularInput(df, name="gen").validate(schema, extra_def_dicts=dd)
+    issues = TabularInput(df, name="gen").validate(schema, extra_def_dicts=dd,
+                                                   error_handler=ErrorHandler(check_for_warnings=warnings))
     assert df.equals(before)
     other = sorted({i["code"] for i in issues if i.get("_kind") not in TEMPORAL_KINDS and i["severity"] == 1})
     errs = sorted([i["ec_row"] - 2, i["_kind"]] for i in issues if i.get("_kind") in TEMPORAL_KINDS)
-    return errs, other
+    # severities of the row-by-row (cell) issues per row, to check the generator's bookkeeping of decorations
+    cell = {}
+    for i in issues:
+        if i.get("_kind") not in TEMPORAL_KINDS and "ec_row" in i and i["code"] in CELL_CODES:
+            cell.setdefault(i["ec_row"] - 2, set()).add("error" if i["severity"] == 1 else "warning")
+    return errs, other, cell
+
+
+CELL_CODES = {"TAG_EXTENDED", "STYLE_WARNING", "UNITS_MISSING", "TAG_INVALID", "DEF_INVALID"}
+
+
+def file_request(rows):
+    return {"op": "c10.file", "rows": [dict(time=r["time"], markers=r["markers"], delayed=r["delayed"],
+                                            issues=row_sevs(r)) for r in rows]}
 
 
 def check_history(ctx, history, model_errors, schema, dd):
@@ -221,29 +304,50 @@ def check_history(ctx, history, model_errors, schema, dd):
 
 
 def check_file(ctx, rows, model, schema, dd):
-    try:
-        impl, other = impl_file(rows, schema, dd)
-    except Exception as e:
-        ctx.violation("file-validation-raised", {"rows": rows}, f"{type(e).__name__}: {e}")
-        return
     nm = sum(len(r["markers"]) + len(r["delayed"]) for r in rows)
     ctx.case(("f", json.dumps(rows)), nontrivial=nm >= 2, sample={"rows": rows} if nm >= 4 and len(rows) <= 4 else None)
-    if other:
-        ctx.count("file-other-error-codes:" + ",".join(other))
     ctx.count("file-timepoints-merged" if len(model["timepoints"]) < len(rows) + sum(len(r["delayed"]) for r in rows)
               else "file-no-merge")
+    sevs = [row_sevs(r) for r in rows]
+    has_marker = [bool(r["markers"] or r["delayed"]) for r in rows]
+    if any(s and "error" not in s and h for s, h in zip(sevs, has_marker)):
+        ctx.count("file-with-warning-only-marker-row")
+    if any("error" in s and h for s, h in zip(sevs, has_marker)):
+        ctx.count("file-with-error-marker-row")
+    # oracle: verdicts per effective time group as the property states (labels are C07's clause)
+    ref = ref_file(rows)
+    if sorted(k for _, k in ref) != sorted(k for _, k in ref_file(rows, drop=lambda r: bool(row_sevs(r)))):
+        ctx.count("file-verdicts-depend-on-warning-rows")
+    if sorted(k for _, k in ref) != sorted(k for _, k in ref_file(rows, drop=lambda r: False)):
+        ctx.count("file-verdicts-depend-on-error-rows-skipped")
     # the label of a merged time point is the first row in sorted order, which is unspecified for ties
     # (unstable sort): compare labels only for time points made of one original row, kinds everywhere
     amb = set(model["ambiguous_labels"])
     m = sorted([l, k] if l not in amb else [-1, k] for l, k in model["errors"])
-    impl = sorted([l, k] if l not in amb else [-1, k] for l, k in impl)
-    if sorted(k for _, k in m) != sorted(k for _, k in impl) or \
-            [x for x in m if x[0] != -1] != [x for x in impl if x[0] != -1]:
-        ctx.disagree("Temporal.timePoints+run = TabularInput.validate temporal issues", {"rows": rows}, m, impl)
-    # oracle: counts/kinds per effective time group as the property states (labels are C07's clause)
-    ref = ref_file(rows)
-    if sorted(k for _, k in impl) != sorted(k for _, k in ref):
-        ctx.violation("file-temporal-errors-follow-effective-times", {"rows": rows}, {"impl": impl, "expected": ref})
+    for warnings in (True, False):
+        case = {"rows": rows, "check_for_warnings": warnings}
+        try:
+            impl, other, cell = impl_file(rows, schema, dd, warnings)
+        except Exception as e:
+            ctx.violation("file-validation-raised", case, f"{type(e).__name__}: {e}")
+            return
+        if other and warnings:
+            ctx.count("file-other-error-codes:" + ",".join(other))
+        # the generator's bookkeeping: which rows draw an error / only warnings in the row-by-row checks
+        # (an error stops the row's basic checks early, so its warnings may not be reported: compare the worst severity)
+        worst = lambda v: "error" if "error" in v else "warning"
+        want_cell = {k: worst(s) for k, s in enumerate(sevs) if s and (warnings or "error" in s)}
+        got_cell = {k: worst(v) for k, v in cell.items()}
+        if got_cell != want_cell:
+            ctx.disagree("decorations draw the stated cell issue severities", case, want_cell, got_cell)
+        impl = sorted([l, k] if l not in amb else [-1, k] for l, k in impl)
+        if sorted(k for _, k in m) != sorted(k for _, k in impl) or \
+                [x for x in m if x[0] != -1] != [x for x in impl if x[0] != -1]:
+            ctx.disagree("Temporal.fileErrors (timePoints, skipped rows, run) = TabularInput.validate temporal issues",
+                         case, m, impl)
+        if sorted(k for _, k in impl) != sorted(k for _, k in ref):
+            ctx.violation("file-temporal-errors-follow-effective-times-of-rows-without-error", case,
+                          {"impl": impl, "expected": ref})
 
 
 # ---- per-group structural checks (DefValidator.validate_onset_offset) ----
@@ -400,7 +504,9 @@ def run(ctx):
     schema = load_schema_version("8.3.0")
     dd = DefinitionDict(DEFS, schema)
     ctx.extra["rule"] = ("histories over {Onset,Offset,Inset} x {A,a,B,C/1,C/2,c/1}: exhaustive for short ones, random longer; "
-                         "event frames with equal-onset rows and Delay shifts on a 1/8 s grid; non-trivial = at least 2 markers; "
+                         "event frames with equal-onset rows and Delay shifts on a 1/8 s grid, rows decorated with warning-only cell issues "
+                         "(extended tag beside/inside the temporal group, unitless Delay, lower-case tag: kept) or errors (unknown tag, "
+                         "unknown Def: skipped, on times of their own), each validated with and without warnings; non-trivial = at least 2 markers; "
                          "temporal groups with 0-3 Def/Def-expand, 0-3 inner groups, extra tags, Delay, second anchors, unknown/valued defs "
                          "(non-trivial = the group is malformed)")
     # corpus
@@ -436,9 +542,20 @@ def run(ctx):
     nfiles = 400 if ctx.quick() else 6000
     files = [[{"time": 8, "markers": [["onset", "A"]], "delayed": [[8, [["offset", "a"]]]]},
               {"time": 16, "markers": [["inset", "A"]], "delayed": []}]]
+    # a marker on a row with a warning-only issue (kept) / with an error (skipped), then a marker that depends on it
+    for deco in WARN_DECOS + ERR_DECOS + ["ext_top,style", "bad_tag,ext_top"]:
+        d = deco.split(",")
+        files.append([{"time": 8, "markers": [["onset", "A"]], "delayed": [], "deco": d},
+                      {"time": 16, "markers": [["inset", "a"]], "delayed": []},
+                      {"time": 24, "markers": [["offset", "A"]], "delayed": []}])
+        files.append([{"time": 8, "markers": [], "delayed": [[4, [["onset", "B"]]]], "deco": d},
+                      {"time": 16, "markers": [["offset", "B"]], "delayed": []}])
+        files.append([{"time": 8, "markers": [["onset", "C/1"]], "delayed": []},
+                      {"time": 16, "markers": [["offset", "c/1"]], "delayed": [[8, [["inset", "B"]]]], "deco": d},
+                      {"time": 32, "markers": [["offset", "C/1"]], "delayed": []}])
     for _ in range(nfiles):
         files.append(gen_rows(ctx.rng, ctx.rng.randint(1, 7)))
-    ans = ctx.model.batch([{"op": "c10.file", "rows": f} for f in files])
+    ans = ctx.model.batch([file_request(f) for f in files])
     for f, a in zip(files, ans):
         check_file(ctx, f, a, schema, dd)
         ctx.check_time()
@@ -463,6 +580,6 @@ def replay(ctx, rec):
         a = ctx.model.batch([{"op": "c10.run", "history": case["history"]}])[0]
         check_history(ctx, h, a["errors"], schema, dd)
     else:
-        a = ctx.model.batch([{"op": "c10.file", "rows": case["rows"]}])[0]
+        a = ctx.model.batch([file_request(case["rows"])])[0]
         check_file(ctx, case["rows"], a, schema, dd)
     print("replayed", json.dumps(case)[:300])
